@@ -689,6 +689,30 @@ func c14Amounts(c *enumx.Ctx) {
 	c.Sample("-w /etc/passwd followed by 256 x -F auid>=1000 => rejected (watch and syscall-rule flags mixed)")
 }
 
+// c14SpecialWords: words the flag package (not the rule grammar) gives a meaning of its own - the help flags -h -help
+// --help --h, a lone dash, a double dash - and unknown flags, at every position of valid lines: a word that is not part
+// of the rule makes the line an error, wherever it stands (also last).
+func c14SpecialWords(c *enumx.Ctx) {
+	bases := [][]group{
+		{{Flag: "-w", Arg: "/etc/passwd"}, {Flag: "-p", Arg: "wa"}, {Flag: "-k", Arg: "identity"}},
+		{{Flag: "-a", Arg: "always,exit"}, {Flag: "-S", Arg: "open"}, {Flag: "-F", Arg: "auid>=1000"}},
+		{{Flag: "-D", Bare: true}},
+		{{Flag: "-D", Bare: true}, {Flag: "-k", Arg: "x"}},
+	}
+	for _, b := range bases {
+		for _, w := range []string{"-h", "-help", "--help", "--h", "-?", "-v", "--version", "-x", "-", "-H", "-hh", "--help=true", "-h=1", "-help=false"} {
+			for pos := 0; pos <= len(b); pos++ {
+				if !c.Mine() {
+					continue
+				}
+				gs := append(append(append([]group{}, b[:pos]...), group{Arg: w}), b[pos:]...)
+				checkLine(c, gs)
+			}
+		}
+	}
+	c.Sample("-w /etc/passwd -p wa -k identity -h => rejected (a word that is not part of the rule)")
+}
+
 func c14Lines(c *enumx.Ctx) {
 	maxLen := 3
 	if c.Tier == "thorough" {
@@ -720,4 +744,5 @@ func init() {
 	gens["c14-addpairs"] = c14AddPairs
 	gens["c14-requoting"] = c14Requoting
 	gens["c14-amounts"] = c14Amounts
+	gens["c14-specialwords"] = c14SpecialWords
 }
